@@ -1108,7 +1108,7 @@ def unique(seq, full=None):
         _max = max(unique)
     elif isinstance(full, dict): # specified min/max for floats
         if 'type' in full: #NOTE: undocumented keys: min,max,type
-            _type = full['type']; del full['type']
+            _type = full['type'] #NOTE: (don't alter the given dict)
         else: _type = float
         minu = min(unique)
         maxu = max(unique)
